@@ -17,6 +17,7 @@ def check(ctx):
     repo = ctx.repo
     P = repo.cls(POLY, "Polygon")
     D = repo.cls(DEV, "Device")
+    ctx.rule("R18.6", "the mesh shared between a device and its copies is never modified in place", 1)
     ctx.rule("R18.1", "operators, set-operation methods, from_* constructors and _join_via agree on the operation name", 10)
     ctx.rule("R18.2", "with an inplace flag every store goes through the alias `self if inplace else self.copy()`; geometry is computed from self", 4)
     ctx.rule("R18.3", "copies are deep (vertices, layer, film, holes, terminals, probe points)", 2)
@@ -174,4 +175,6 @@ def check(ctx):
     ctx.ob("R18.5", "mask == film.contains(points, +radius) & ~any(hole.contains(points, -radius))", ok, detail=[norm(x) for x in m],
            where=f.fq, construct="Device.contains_points", loc=loc(f, f.node), message=f"membership mask is {[norm(x) for x in m]}",
            consequence="points inside holes count as inside the device (or film points are excluded)")
+    from ..effects import mesh_immutable
+    mesh_immutable(ctx, "R18.6", 'the mesh is the one object a device shares with its copies: modifying it in place changes the other device, whose polygons stay where they were')
     ctx.decline("areas under affine maps, agreement of set operations with point-wise membership, boundary conventions: computed by shapely / matplotlib")
